@@ -259,7 +259,7 @@ def c04(tier):
                       "wide_checked", props, vh=vh, timeout_ms=Q(tier, 2000, 10000), sample_cap=Q(tier, 10, 40))
         # scaled shapes (hundreds of sections, thousands of statements): the time limit grows with the input, polynomially
         # (the monitors of the harness run inside the same limit)
-        c.explore(split_tasks("scaled", {"max_k": Q(tier, 30, 60)}, Q(tier, 30, 60) * 17, [], "six", chunks=16), f"scaled_{label}", props, vh=vh, timeout_ms=Q(tier, 30000, 60000), sample_cap=Q(tier, 10, 40))
+        c.explore(split_tasks("scaled", {"max_k": Q(tier, 30, 60)}, Q(tier, 30, 60) * 18, [], "six", chunks=16), f"scaled_{label}", props, vh=vh, timeout_ms=Q(tier, 30000, 60000), sample_cap=Q(tier, 10, 40))
     # very deep nesting through the command line (a stack overflow kills the process: it cannot be observed in-process)
     import cli, subprocess as sp
     build(("cli",))
@@ -370,7 +370,7 @@ def c08(tier):
     # generated programs; deep nesting (indentation beyond 100 and 255 columns) under every unit
     tasks += seed_tasks("wide", sample_every=Q(tier, 997, 4999)) if tier == "quick" else []
     tasks += program_tasks(tier, "wide", [PLAIN, MIXED], cfg_mode="rotate", sample_every=Q(tier, 997, 9973))
-    tasks += split_tasks("scaled", {"max_k": Q(tier, 40, 80)}, Q(tier, 40, 80) * 17, [], "wide", chunks=32, sample_every=Q(tier, 499, 4999))
+    tasks += split_tasks("scaled", {"max_k": Q(tier, 40, 80)}, Q(tier, 40, 80) * 18, [], "wide", chunks=32, sample_every=Q(tier, 499, 4999))
     c.explore(tasks, "corpus", ["C08"], sample_cap=Q(tier, 250, 1500))
     return c.finish(
         rule="as C01, plus generated programs with one or two verbatim regions (also inside one statement) and blank-line runs in the middle of statements; the whitespace predicates of Props.tla (WhitespaceViolations) are evaluated on the final token table of every call; the end-of-file clause on well-formed inputs (seeds) only")
@@ -381,7 +381,7 @@ def c14(tier):
     c = Check("C14", tier, "model_checking")
     directive_tree_mc(c, tier)
     tasks = basic_corpus(tier, cfgs_soup="default")
-    tasks += split_tasks("scaled", {"max_k": Q(tier, 40, 80)}, Q(tier, 40, 80) * 17, [], "default", chunks=16, sample_every=Q(tier, 97, 499))
+    tasks += split_tasks("scaled", {"max_k": Q(tier, 40, 80)}, Q(tier, 40, 80) * 18, [], "default", chunks=16, sample_every=Q(tier, 97, 499))
     tasks += program_tasks(tier, "default", [PLAIN, COMMENTS, DIRECTIVES, MIXED, REGIONS], sample_every=Q(tier, 499, 4999))
     tasks += texts_tasks(dirblock_programs(c, tier), "default", chunks=32, sample_every=Q(tier, 997, 9973))
     c.explore(tasks, "corpus", ["C14"], sample_cap=Q(tier, 250, 1500))
@@ -664,7 +664,7 @@ def c05(tier):
                                          ("auto", 60, 2, True, 2, False), ("always_wrap", 80, 8, False, 3, True), ("auto", 30, 2, False, 2, False)]]
     tasks = program_tasks(tier, cfgs, [PLAIN, MIXED, COMMENTS, DIRECTIVES, ONELINE, ALLBREAKS], cfg_mode="rotate", sample_every=Q(tier, 499, 4999))
     # one control statement with thousands of statements in its block (the search budget of one line must not be shared)
-    tasks += split_tasks("scaled", {"max_k": Q(tier, 40, 60)}, Q(tier, 40, 60) * 17, [], cfgs[:1], chunks=16)
+    tasks += split_tasks("scaled", {"max_k": Q(tier, 40, 60)}, Q(tier, 40, 60) * 18, [], cfgs[:1], chunks=16)
     c.explore(tasks, "marks", ["C05"], sample_cap=Q(tier, 60, 300))
     return c.finish(
         rule="programs derived by TLC from Grammar.tla carry structure marks (statement / declaration member: own line, one unit deeper than the opener's line; closer: own line at the opener's indentation; control-flow begin under always_wrap); "
@@ -676,7 +676,7 @@ def c06(tier):
     c = Check("C06", tier, "model_checking")
     tasks = program_tasks(tier, Q(tier, "two", "six"), [PLAIN, COMMENTS, DIRECTIVES, REGIONSF, REGIONSF2], alts=Q(tier, (0, 2, 3), (0, 2, 2, 3, 4, 1)), sample_every=Q(tier, 299, 2999))
     # scaled shapes that carry a second layout (one logical line with thousands of tokens)
-    tasks += split_tasks("scaled", {"max_k": Q(tier, 40, 80)}, Q(tier, 40, 80) * 17, [], "default", chunks=16, sample_every=Q(tier, 499, 4999))
+    tasks += split_tasks("scaled", {"max_k": Q(tier, 40, 80)}, Q(tier, 40, 80) * 18, [], "default", chunks=16, sample_every=Q(tier, 499, 4999))
     # routines with asm bodies (keywords in any case), two layouts of the code around the instruction lines
     na = Q(tier, 3000, 60000)
     tasks += split_tasks("asm", {"count": na, "seed": SEED + 1}, na, [], "two", chunks=16, sample_every=Q(tier, 499, 4999))
@@ -758,7 +758,7 @@ def mlstring_mc_and_replay(c, tier):
 def comment_mc_and_replay(c, tier):
     """MC of the comment / directive normalisations (Comment.tla) and replay of every enumerated token."""
     c.mc("MC_Comment", "MC_Comment_bug.cfg", expect_violation=True, workers=4, timeout=600)
-    for name in Q(tier, ["line4", "doc3", "sep", "dir5", "pdir4", "cond_directive", "cond_pdirective"], ["line5", "doc3", "sep", "dir6", "pdir4", "cond_directive", "cond_pdirective"]):
+    for name in Q(tier, ["line4", "doc3", "sep", "docsep", "dir5", "pdir4", "cond_directive", "cond_pdirective"], ["line5", "doc3", "sep", "docsep", "dir6", "pdir4", "cond_directive", "cond_pdirective"]):
         r = c.mc("MC_Comment", f"MC_Comment_{name}.cfg", workers=8, timeout=3000)
         beh = [p for t, p in r["replay"]]
         bf = os.path.join(WORK, f"{c.prop}_comment_{name}.beh.ndjson")
@@ -792,7 +792,7 @@ def c12(tier):
             for (f, le, t, tw, w) in [(True, "lf", False, 2, 120), (True, "crlf", False, 4, 40), (False, "lf", False, 2, 120), (True, "lf", True, 2, 30), (False, "crlf", True, 2, 60)]]
     tasks = program_tasks(tier, cfgs, [PLAIN, MIXED, CRLFTABS], cfg_mode="rotate", sample_every=Q(tier, 499, 4999))
     tasks += seed_tasks(cfgs, sample_every=Q(tier, 97, 997))
-    tasks += split_tasks("scaled", {"max_k": Q(tier, 40, 80)}, Q(tier, 40, 80) * 17, [], cfgs, chunks=16, sample_every=Q(tier, 97, 499))
+    tasks += split_tasks("scaled", {"max_k": Q(tier, 40, 80)}, Q(tier, 40, 80) * 18, [], cfgs, chunks=16, sample_every=Q(tier, 97, 499))
     tasks += mlshape_tasks(tier, cfgs, cfg_mode="rotate", sample_every=Q(tier, 997, 9973))
     c.explore(tasks, "mlstrings", ["C12"], sample_cap=Q(tier, 80, 400))
     return c.finish(
